@@ -111,6 +111,9 @@ func shallowArg(t *Term) string {
 	case "const", "global":
 		return t.Name
 	case "field":
+		if len(t.Name) > 0 && t.Name[0] >= 'a' && t.Name[0] <= 'z' {
+			return "_" // an unexported field: a dependency of a keeper / server / plugin struct, named by the callee
+		}
 		if r := shallowArg(t.Args[0]); r != "_" {
 			return r + "." + t.Name
 		}
@@ -164,6 +167,32 @@ func (fa *FuncAnalysis) EscapeEdges(from ssa.Instruction, targets []ssa.Instruct
 		return -1
 	}
 	blocks := fa.Fn.Blocks
+	// single-exit functions return a joined error value: whether `return res, err` is a success exit depends on the
+	// edge it is entered through (the value the error phi has on that edge)
+	ei := errResultIndex(fa.Fn)
+	exitVia := func(exitFree map[*ssa.BasicBlock]bool, b *ssa.BasicBlock, si int) bool {
+		s := b.Succs[si]
+		if !exitFree[s] {
+			return false
+		}
+		if len(s.Instrs) == 0 || firstTarget(s, 0) >= 0 {
+			return exitFree[s]
+		}
+		r, ok := s.Instrs[len(s.Instrs)-1].(*ssa.Return)
+		if !ok || ei < 0 || ei >= len(r.Results) {
+			return exitFree[s]
+		}
+		phi, ok := r.Results[ei].(*ssa.Phi)
+		if !ok || phi.Block() != s {
+			return exitFree[s]
+		}
+		for pi, p := range s.Preds {
+			if p == b && pi < len(phi.Edges) && fa.provablyNonNil(phi.Edges[pi], r, 0) {
+				return false // an error exit when entered from b
+			}
+		}
+		return true
+	}
 	exitFree := map[*ssa.BasicBlock]bool{}  // from the start of b a counted exit is reachable without a target
 	canTarget := map[*ssa.BasicBlock]bool{} // from the start of b a target is reachable
 	for changed := true; changed; {
@@ -183,7 +212,7 @@ func (fa *FuncAnalysis) EscapeEdges(from ssa.Instruction, targets []ssa.Instruct
 				if fa.edgeDead(b, si) {
 					continue // branches on a constant the other way
 				}
-				if !hasT && exitFree[s] && !errEdge(b, si) {
+				if !hasT && exitVia(exitFree, b, si) && !errEdge(b, si) {
 					ef = true
 				}
 				if canTarget[s] {
@@ -253,7 +282,7 @@ func (fa *FuncAnalysis) EscapeEdges(from ssa.Instruction, targets []ssa.Instruct
 			if errEdge(b, i) {
 				continue
 			}
-			if exitFree[s] && !canTarget[s] {
+			if exitVia(exitFree, b, i) && !canTarget[s] {
 				if g, ok := fa.EdgeFact(b, i); ok {
 					out["exit when "+shallowGuard(g)] = true
 				} else {
